@@ -83,7 +83,7 @@ double AD(int n,double z)
     {
         v=x/c;
         v=sqrt(v)*(1.-v)*(49*v-102);
-        return x+v*(.0037/(n*n)+.00078/n+.00006)/n;
+        return x+v*(.0037/((double)n*n)+.00078/n+.00006)/n;
     }
 
     v=(x-c)/(.8-c);
